@@ -501,4 +501,9 @@ pub mod verif_hooks {
     pub fn macroman_table() -> &'static [u16] {
         UNICODE_TO_MACROMAN
     }
+
+    /// C13 / C06: `glyph_props` (GDEF glyph class and mark attachment class -> glyph_props bits) of one glyph.
+    pub fn glyph_props(face: &hb_font_t, glyph: u16) -> u16 {
+        face.glyph_props(GlyphId(glyph))
+    }
 }
